@@ -85,6 +85,15 @@ func Sites(d *spec.Design, v any, a *spec.Attr, path string, set func(any)) []Si
 			for i := range mv.V {
 				i := i
 				out = append(out, Sites(d, mv.V[i], rt.Elem, fmt.Sprintf("%s[%s]", path, Show(mv.K[i])), func(nv any) { mv.V[i] = nv })...)
+				// the key itself (constraints declared with Key(...) or carried by the key's alias type)
+				out = append(out, Sites(d, mv.K[i], rt.Key, path+".key", func(nv any) {
+					for j := range mv.K {
+						if j != i && Equal(mv.K[j], nv) {
+							return // would merge two entries: leave the map as it is
+						}
+					}
+					mv.K[i] = nv
+				})...)
 			}
 		}
 	}
